@@ -28,6 +28,15 @@ def classify_crash(rc, stderr_text):
         return "asan:%s%s" % (m.group(1), ":" + topfn if topfn else ""), (m.group(0) + (" in " + top if top else ""))[:400]
     if "AddressSanitizer:DEADLYSIGNAL" in err or "AddressSanitizer" in err[-3000:]:
         return "asan:deadly-signal%s" % (":" + topfn if topfn else ""), ("AddressSanitizer deadly signal" + (" in " + top if top else ""))[:400]
+    vg = re.search(r"==\d+== (Invalid (read|write)[^\n]*|Conditional jump or move depends on uninitialised value[^\n]*|Use of uninitialised value[^\n]*|Syscall param[^\n]*|Invalid free[^\n]*|Mismatched free[^\n]*|Source and destination overlap[^\n]*)", err)
+    if rc == 88 or vg:
+        kind = (vg.group(1).split(" of size")[0] if vg else "error").strip().replace(" ", "-").lower()[:50]
+        fr = re.findall(r"==\d+==\s+(?:at|by) 0x[0-9A-F]+: (.+?) \((\S+?):(\d+)\)", err[vg.start():] if vg else err)
+        where = ""
+        for fn, f, ln in fr:
+            if f.endswith((".cpp", ".h", ".hpp")) and not f.startswith(("stl_", "new_allocator", "alloc_traits")) and any(t in fn for t in ("Pomerol::", "pMPI::")):
+                where = "::".join(re.sub(r"\(.*", "", fn).split("::")[-2:]).replace("Pomerol::", ""); break
+        return "valgrind:%s%s" % (kind, ":" + where if where else ""), (vg.group(0) if vg else "valgrind error exit")[:300] + (" in " + where if where else "")
     if rc == 79 or "SIM-WATCHDOG" in err[-2000:]:
         return "hang:cpu-spin", "a rank spun without making any MPI call until the per-run CPU budget was exhausted (livelock outside MPI)"
     if rc < 0:
@@ -36,21 +45,23 @@ def classify_crash(rc, stderr_text):
 
 
 class Worker:
-    def __init__(self, exe, seed_start, seed_step, max_runs, time_limit, cfg, idx, extra=None):
+    def __init__(self, exe, seed_start, seed_step, max_runs, time_limit, cfg, idx, extra=None, wrapper=None):
         self.exe, self.seed, self.step, self.left, self.tl, self.cfg, self.idx = exe, seed_start, seed_step, max_runs, time_limit, cfg, idx
         self.extra = extra or []
+        self.wrapper = wrapper or []
         self.proc = None
         self.cur_seed = None
         self.errpath = os.path.join(TMP, "w%d_%d.err" % (os.getpid(), idx))
         self.t0 = time.time()
         self.restarts = 0
+        self.recycles = 0
 
     def start(self):
         os.makedirs(TMP, exist_ok=True)
         remaining = self.tl - (time.time() - self.t0)
         if self.left <= 0 or remaining <= 0:
             return False
-        cmd = [self.exe, "--seed-start", str(self.seed), "--seed-step", str(self.step), "--max-runs", str(self.left), "--time-limit", "%.1f" % remaining] + self.extra
+        cmd = self.wrapper + [self.exe, "--seed-start", str(self.seed), "--seed-step", str(self.step), "--max-runs", str(self.left), "--time-limit", "%.1f" % remaining] + self.extra
         if self.cfg:
             cmd += ["--cfg", self.cfg]
         self.err = open(self.errpath, "w")
@@ -58,7 +69,9 @@ class Worker:
         return True
 
 
-def run_batch(exe, base_seed, nruns, time_limit, cfg="", nworkers=None, extra=None, on_result=None):
+VALGRIND = ["valgrind", "-q", "--error-exitcode=88", "--exit-on-first-error=yes", "--undef-value-errors=yes", "--num-callers=25", "--max-stackframe=4000000"]
+
+def run_batch(exe, base_seed, nruns, time_limit, cfg="", nworkers=None, extra=None, on_result=None, wrapper=None):
     """Runs seeds base_seed .. base_seed+nruns-1 (as many as fit in time_limit) over a pool of in-process-looping workers.
     Returns (results, crashes). A dead worker is attributed to the seed in progress and restarted on its remaining seeds."""
     import selectors
@@ -68,7 +81,7 @@ def run_batch(exe, base_seed, nruns, time_limit, cfg="", nworkers=None, extra=No
     workers = []
     for w in range(nworkers):
         share = (nruns - w + nworkers - 1) // nworkers
-        wk = Worker(exe, base_seed + w, nworkers, share, time_limit, cfg, w, extra)
+        wk = Worker(exe, base_seed + w, nworkers, share, time_limit, cfg, w, extra, wrapper)
         if wk.start():
             sel.register(wk.proc.stdout, selectors.EVENT_READ, wk)
             workers.append(wk)
@@ -98,6 +111,10 @@ def run_batch(exe, base_seed, nruns, time_limit, cfg="", nworkers=None, extra=No
             sel.unregister(wk.proc.stdout)
             rc = wk.proc.wait()
             wk.err.close()
+            if rc == 0 and wk.cur_seed is None and wk.left > 0 and wk.recycles < 500 and wk.start():
+                wk.recycles += 1   # the worker ended early to shed leaked memory: continue on its remaining seeds
+                sel.register(wk.proc.stdout, selectors.EVENT_READ, wk)
+                continue
             if rc != 0 or wk.cur_seed is not None:
                 err = open(wk.errpath).read()[-20000:]
                 if wk.cur_seed is not None:
@@ -120,11 +137,12 @@ def run_batch(exe, base_seed, nruns, time_limit, cfg="", nworkers=None, extra=No
 
 
 WATCHDOG_SINGLE = {"c16_dispatch": 30}
+CURRENT_WRAPPER = None   # set by the runner while it handles a part that runs under valgrind
 
-def run_single(exe, seed, cfg=None, choices=None, default_choices=False, want_choices=False, want_trace=False, timeout=600):
+def run_single(exe, seed, cfg=None, choices=None, default_choices=False, want_choices=False, want_trace=False, timeout=900, wrapper=None):
     """one run in a fresh process; returns a result dict (crash -> synthesized result)"""
     os.makedirs(TMP, exist_ok=True)
-    cmd = [exe, "--seed-start", str(seed), "--max-runs", "1", "--watchdog", str(WATCHDOG_SINGLE.get(os.path.basename(exe), 150))]
+    cmd = (wrapper or CURRENT_WRAPPER or []) + [exe, "--seed-start", str(seed), "--max-runs", "1", "--watchdog", str(WATCHDOG_SINGLE.get(os.path.basename(exe), 150) * (20 if (wrapper or CURRENT_WRAPPER) else 1))]
     if cfg: cmd += ["--cfg", cfg]
     cf = None
     if choices is not None:
